@@ -19,7 +19,7 @@ import z3
 
 from . import rseval, rsparse
 from .c09 import KEYS, md5_model, key, FILES as C09_FILES
-from .common import load_program
+from .common import load_program, concretize, native_histories
 from .rseval import Struct, Enum, NONE, Some, Uninterp, Ok
 
 FILES = C09_FILES + ["src/config/config_subscribe.rs"]
@@ -84,7 +84,16 @@ def listener_scenario(prog, nsteps, stats):
     covers = stats.setdefault("covers", {"listener registered": 0, "registered listener answered by a change": 0, "tick after a deadline": 0, "tmp value set": 0,
                                          "listener waits across a tmp value": 0})
 
+    ops_box = [[], True]
+
+    def kk(k):
+        return [k["data_id"], k["group"], k["tenant"]]
+
     def thunk():
+        r = thunk_inner()
+        return r + (list(ops_box[0]), ops_box[1])
+
+    def thunk_inner():
         conn = ConnManage()
         actor = new_actor(it, conn)
         clock["last"] = 0
@@ -92,6 +101,8 @@ def listener_scenario(prog, nsteps, stats):
         # listeners registered so far: dict name -> {sender, keys, deadline, registered(bool), answered_at}
         ls = {}
         log = []
+        rec = ops_box[0] = []
+        ops_box[1] = True  # replayable natively (no timer tick: the native clock cannot be set)
         for i in range(nsteps):
             # 0: L1 on k1   1: L2 on {k1,k2}   2: publish k1   3: publish k2   4: remove k1   5: tick
             # 6: SetTmpValue k1 (what a node that forwarded a publish to the leader does before the raft apply arrives)
@@ -127,6 +138,7 @@ def listener_scenario(prog, nsteps, stats):
                         tval = cand
                         break
                 tneg = tval == 0
+                rec.append({"op": "listen", "name": name, "keys": [kk(k) for k in keys], "held": [held[i] for _k in keys], "immediate": tneg})
                 it._invoke(handle, [actor, Enum("ConfigCmd", "LISTENER", [items, snd, tval]), "ctx"], self_ty="ConfigActor")
                 answered_now = len(snd.sent) > 0
                 log.append(("listen", name, [k["data_id"] for k in keys], "changed=%s" % [k["data_id"] for k in expect_changed], "immediate" if answered_now else "registered"))
@@ -148,6 +160,7 @@ def listener_scenario(prog, nsteps, stats):
                 before = cur_md5(actor, k)
                 param = Struct("SetConfigParam", {"key": k, "value": content[i], "config_type": NONE, "desc": NONE, "history_id": i + 1,
                                                   "history_table_id": NONE, "op_time": 100 + i, "op_user": NONE})
+                rec.append({"op": "publish", "key": kk(k), "content": content[i], "type": None, "desc": None, "history_id": i + 1, "history_table_id": None, "op_time": 100 + i})
                 it.call_method("ConfigActor", "set_config", actor, [param])
                 after = cur_md5(actor, k)
                 changed = True if before is None else it.lnot(it.eq(before, after))
@@ -160,6 +173,7 @@ def listener_scenario(prog, nsteps, stats):
             elif op == 4:
                 k = KEYS[0]
                 existed = cur_md5(actor, k) is not None
+                rec.append({"op": "remove", "key": kk(k)})
                 it.call_method("ConfigActor", "del_config", actor, [k])
                 log.append(("remove", k["data_id"], "existed" if existed else "absent"))
                 if existed:
@@ -168,6 +182,7 @@ def listener_scenario(prog, nsteps, stats):
                         return r
             elif op == 6:
                 k = KEYS[0]
+                rec.append({"op": "tmp", "key": kk(k), "content": content[i]})
                 it._invoke(handle, [actor, Enum("ConfigCmd", "SetTmpValue", [k, content[i]]), "ctx"], self_ty="ConfigActor")
                 log.append(("set-tmp-value", k["data_id"]))
                 covers["tmp value set"] = covers.get("tmp value set", 0) + 1
@@ -181,6 +196,7 @@ def listener_scenario(prog, nsteps, stats):
                     raise rseval.PathAbort()  # the clock does not go backwards
                 clock["last"] = nowv
                 clock["now"] = nowv
+                ops_box[1] = False
                 before_tick = {n_: len(l_["sender"].sent) for n_, l_ in ls.items()}
                 it.call_method("ConfigListener", "timeout", actor["listener"], [])
                 log.append(("tick", nowv))
@@ -219,6 +235,7 @@ def listener_scenario(prog, nsteps, stats):
     stats["queries"] += it.queries
     stats["opaque"] = sorted(it.opaque_seen)
     s = z3.Solver()
+    ok_paths = []
     for pc, r, exc in paths:
         if exc is not None:
             return {"message": "panic in listener code: %s" % exc, "tags": ["panic"], "model": {}}
@@ -230,8 +247,21 @@ def listener_scenario(prog, nsteps, stats):
                 s.pop()
                 return {"message": r[1], "tags": [r[3]], "model": {"history": [list(map(str, e)) for e in r[2]],
                         "held_md5": [m.eval(h, model_completion=True).as_string() for h in held],
-                        "contents": [m.eval(c, model_completion=True).as_string() for c in content]}}
+                        "contents": [m.eval(c, model_completion=True).as_string() for c in content]},
+                        "ops": concretize(r[4], m) if r[5] else None}
             s.pop()
+        elif r[5] and r[4]:
+            ok_paths.append((pc, r[4]))
+    import random
+    rnd = random.Random(stats.get("seed", 0))
+    hist = []
+    for pc, ops in rnd.sample(ok_paths, min(stats.get("n_validate", 10), len(ok_paths))):
+        s.push()
+        s.add(*pc)
+        if s.check() == z3.sat:
+            hist.append({"ops": concretize(ops, s.model())})
+        s.pop()
+    stats["validate"] = hist
     return None
 
 
@@ -395,7 +425,7 @@ def run(tier, seed):
              ["Handler<ConfigCmd>::handle (Subscribe / RemoveSubscribe / RemoveSubscribeClient arms)", "Subscriber::{add_subscribe,remove_subscribe,remove_client_subscribe,remove_config_key,notify}",
               "ConfigActor::{set_config,del_config}"],
              "every sequence of %d messages over {c1 sub k1, c1 sub k1+k2, c2 sub k1, c1 unsub k1, c1 disconnect, publish k1, remove k1, publish k2}; contents symbolic")):
-        stats = {"paths": 0, "queries": 0}
+        stats = {"paths": 0, "queries": 0, "seed": seed, "n_validate": 10 if tier == "quick" else 40}
         ob = {"engine": "smt", "harness": name, "encodes": enc, "encodes_files": FILES, "bound": bound % n, "queries": 0, "solver_s": 0.0, "distinct": 0}
         try:
             ts = time.time()
@@ -416,12 +446,32 @@ def run(tier, seed):
                 else:
                     ob.update({"verdict": "discharged", "distinct": stats["paths"]})
             else:
-                ob.update({"verdict": "violation", "message": viol["message"], "tags": viol["tags"], "counterexample": viol["model"]})
+                ob.update({"verdict": "violation", "message": viol["message"], "tags": viol["tags"], "counterexample": viol["model"], "_ops": viol.get("ops")})
+            ob["_validate"] = stats.get("validate", [])
         except rsparse.Unsupported as e:
             ob.update({"verdict": "inconclusive", "message": "encoder met source it cannot encode: %s" % e})
         obligations.append(ob)
     from lib import native
+    import os
+    native_ok = not os.environ.get("VERIF_NO_NATIVE")
+    hist = [h for ob in obligations for h in ob.pop("_validate", [])]
+    if hist and native_ok:
+        val = native_histories("C10", "config", "validate", hist)
+        info["translator_validation"] = val
+        if val["outcome"] != "passed":
+            obligations.append({"engine": "smt", "harness": "s10_translator_validation", "verdict": "inconclusive", "queries": 0, "solver_s": 0,
+                                "message": "the real ConfigActor and the encoding disagree on a sampled history: %s" % val["message"]})
     for ob in obligations:
+        ops = ob.pop("_ops", None)
+        if ob.get("verdict") == "violation" and ops and native_ok:
+            rr = native_histories("C10", "config", "violation", [{"ops": ops}], {"obligation": ob["harness"], "model": ob.get("counterexample")}, ob["message"])
+            ob["replay_path"] = rr["path"]
+            ob["replay"] = {"path": rr["path"], "outcome": rr["outcome"], "message": rr["message"]}
+            if rr["outcome"] != "reproduced":
+                ob.update({"verdict": "inconclusive", "message": "engine-S counterexample (%s) did not reproduce on the real ConfigActor (%s %s)" % (ob["message"], rr["outcome"], rr["message"])})
+            else:
+                ob["message"] = "%s [real ConfigActor: %s]" % (ob["message"], rr["message"][:300])
+            continue
         if ob.get("verdict") == "violation":
             path = native.write_replay("C10", "c10", "model", [], {"engine": "smt", "mode": "model-only", "obligation": ob["harness"], "message": ob["message"],
                                                                    "model": ob.get("counterexample")})
